@@ -329,6 +329,57 @@ def gen_structured(rng, world, n):
         stack = [(a, e) for (a, e) in stack if world.handles[a].is_active or e]
 
 
+def gen_faulty(rng, world, n):
+    """op soup in which COMMIT / ROLLBACK / SAVEPOINT / RELEASE / ROLLBACK TO fail now and then
+    (DBAPI error, sometimes a disconnect) and the ended or half-ended handles are used again"""
+    k = 1
+    last = None
+    for _ in range(n):
+        r = rng.random()
+        nh = len(world.handles)
+        if last is not None and r < 0.45:
+            # use the handle whose operation has just failed once more
+            tok = rng.choice("crxc") + str(last)
+            last = None
+            yield tok
+            continue
+        if r < 0.30:
+            p = rng.choice("xxxcr")
+            yield "F" + p + rng.choice("eeed")
+            if p == "x":
+                cand = ["n", "i%d" % k]
+                if nh:
+                    h = rng.randrange(nh)
+                    cand += [rng.choice("cr") + str(h)] * 3
+                tok = rng.choice(cand)
+            elif p == "c":
+                tok = rng.choice(["C", "c0"] if nh else ["C"])
+            else:
+                tok = rng.choice(["R", "r0", "x0"] if nh else ["R"])
+            if tok.startswith("i"):
+                k += 1
+            yield tok
+            if tok[0] in "crx" and len(tok) > 1:
+                last = int(tok[1:])
+            if world.plan.armed:
+                yield "D"
+            continue
+        if r < 0.38:
+            tok = "b"
+        elif r < 0.55:
+            tok = "n"
+        elif r < 0.70:
+            tok = "i%d" % k
+            k += 1
+        elif r < 0.76:
+            tok = rng.choice(["C", "R"])
+        elif nh:
+            tok = rng.choice("crxcreof") + str(rng.randrange(nh))
+        else:
+            tok = "q"
+        yield tok
+
+
 def gen_exhaustive(maxlen):
     """all op sequences up to `maxlen` over begin / begin_nested / insert / commit / rollback and
     commit / rollback of the first three handles (handle operands that do not exist yet are
@@ -429,11 +480,64 @@ def check_history(ctx, ops, recs, cases, impl_out, reqs, reset="rollback"):
     reqs.append(lib_txn.driver_line(ops, reset))
 
 
+def is_faulty(ops):
+    return any(t[0] in "FD" for t in ops)
+
+
+def oracle_any(ops, recs):
+    """the reference-model oracle, or for histories with injected failures only: no internal
+    error escapes"""
+    if not is_faulty(ops):
+        return oracle(ops, recs)
+    for i, r in enumerate(recs):
+        res = r.split("/")[0]
+        if res.startswith("EXC:") or res.startswith("OBSERVE-ERROR"):
+            return ("c23-oracle", i, "step %d (%s) let an internal error escape: %s" % (i, ops[i], res))
+    return None
+
+
+def check_faulty(ctx, ops, recs, cases, impl_out, reqs):
+    """histories with injected DBAPI failures: compared with the Lean model step by step (the
+    nested-scope reference model does not speak about failing COMMIT/ROLLBACK/RELEASE)"""
+    from harness import lib_txn
+
+    fired = any(r.split("/")[0].split(":")[0] in ("DISC", "OE") for r in recs)
+    ctx.case("faulty:" + ";".join(ops), nontrivial=fired)
+    ctx.count("faulty")
+    for t in ops:
+        ctx.count("op=" + (t if t[0] == "F" else t[0]))
+    for r in recs:
+        ctx.count("res=" + r.split("/")[0].split(":")[0])
+    bad = oracle_any(ops, recs)
+    if bad:
+        ctx.violation(bad[0], {"ops": ops[: bad[1] + 1], "reset": "rollback"}, bad[2])
+    cases.append({"ops": ops, "reset": "rollback"})
+    impl_out.append("|".join(recs) if recs else "-")
+    reqs.append(lib_txn.driver_line(ops, "rollback"))
+
+
+FIXED_FAULTY = [
+    # RELEASE fails: the savepoint object is inactive but still current; commit() on it again
+    "n;i1;Fxe;c1;c1;r1;C",
+    "n;i1;Fxe;c1;c1;R",
+    # COMMIT fails: the transaction stays attached, inactive; commit again, then rollback
+    "b;i1;Fce;C;C;c0;R;i2;C",
+    "b;i1;n;i2;Fce;c0;c1;r1;r0;q",
+    # ROLLBACK TO fails, ROLLBACK fails
+    "n;i1;n;i2;Fxe;r2;r2;c1;C",
+    "b;i1;n;Fre;R;q;r1;c1",
+    "b;i1;Fre;x0;c0;r0;b;C",
+    # SAVEPOINT fails
+    "b;i1;Fxe;n;n;i2;c1;C",
+]
+
+
 def run(ctx, deep=False):
     ctx.rule = (
         "histories of begin/begin_nested/INSERT/DELETE/SELECT/commit/rollback/close, handle commit/rollback/close and "
         "__enter__/__exit__(ok|exc) on one Connection: 19 scripted shapes + structured well-nested programs with injected "
-        "misuse + random op soups (length <=10 quick, <=16 thorough) + in thorough ALL sequences of <=4 ops over begin/begin_nested/insert/commit/rollback/handle commit+rollback; every op's observation record is compared with the Lean "
+        "misuse + random op soups (length <=10 quick, <=16 thorough) + op soups in which COMMIT/ROLLBACK/SAVEPOINT/RELEASE/ROLLBACK TO fail "
+        "(injected DBAPI error or disconnect) and the half-ended handles are used again (compared with the Lean model only) + in thorough ALL sequences of <=4 ops over begin/begin_nested/insert/commit/rollback/handle commit+rollback; every op's observation record is compared with the Lean "
         "model and with an independent reference model; non-trivial = uses a savepoint, a handle op or a context manager"
     )
     ctx.trusted.append("sqlite3 (autocommit=False) + SQLite SAVEPOINT semantics behind harness/lib_txn.py's DBAPI proxy (abstract DB in the model)")
@@ -456,6 +560,12 @@ def run(ctx, deep=False):
         check_history(ctx, ops, recs, cases, impl_out, reqs)
         if i % 400 == 0 and len(ops) >= 6:
             ctx.sample({"ops": ";".join(ops), "last": recs[-1]})
+    for s in FIXED_FAULTY:
+        ops = s.split(";")
+        check_faulty(ctx, ops, replay_ops(ops), cases, impl_out, reqs)
+    for i in range(5000 if big else 700):
+        ops, recs = run_history(gen_faulty, ctx.rng, ctx.rng.randint(3, maxlen))
+        check_faulty(ctx, ops, recs, cases, impl_out, reqs)
     if big:
         # exhaustive small scope: every sequence of <= 4 ops over the core alphabet
         seen = set()
@@ -478,7 +588,7 @@ def search(ctx, broken):
     for d in ctx.disagreements:
         c = d["case"]
         recs = replay_ops(c["ops"], c.get("reset", "rollback"))
-        bad = oracle(c["ops"], recs)
+        bad = oracle_any(c["ops"], recs)
         if bad:
             ctx.violation(bad[0], {"ops": c["ops"][: bad[1] + 1], "reset": c.get("reset", "rollback")}, bad[2])
     sub = type(ctx)(ctx.pid, "thorough", ctx.seed + 1, ctx.level)
@@ -490,7 +600,7 @@ def replay(ctx, obj):
     c = obj["case"]
     ops = c["ops"]
     recs = replay_ops(ops, c.get("reset", "rollback"))
-    bad = oracle(ops, recs)
+    bad = oracle_any(ops, recs)
     print("replay C23 ops=%s" % ";".join(ops))
     for t, r in zip(ops, recs):
         print("  %-5s %s" % (t, r))
